@@ -65,6 +65,10 @@ def strategy_case(draw):
     # complex data: the same classes after a diagonal unitary similarity per mode (Hermitian positive definite / Laplacian-like /
     # diagonally dominant with the same spectrum), complex right-hand side and initial guess
     case["dt"] = draw(st.sampled_from(["f64", "f64", "f64", "c128"]))
+    # the documented option for operators whose cores are band matrices (the Laplacian-like class is tridiagonal): the local
+    # operator of the iterative solvers is then applied band by band
+    if cls == "laplace":
+        case["band"] = draw(st.sampled_from([-1, -1, 1, 2]))
     return case
 
 
@@ -202,6 +206,8 @@ def build_operands(T, ck, case):
         x0 = T.TT(x0c) if case.get("x0_zero") != "zeros" else T.zeros(list(N), dtype=DT[case.get("dt", "f64")])
         if case.get("x0_zero"):
             ck.label("x0_zero")
+    if case.get("band", -1) >= 0:
+        ck.label("band_diagonal")
     if case.get("b_kind", "random") != "random":
         ck.label("b:" + case["b_kind"])
     if case.get("b_kind") == "unit_pair":
@@ -227,6 +233,7 @@ def execute(case):
     torch.manual_seed(case["lib_seed"])
     x = lib(lambda: T.solvers.amen_solve(A, b, x0=x0, eps=eps, preconditioner=case["prec"], max_full=case["max_full"],
                                         local_solver=case["local_solver"], use_cpp=False, verbose=False,
+                                        band_diagonal=case.get("band", -1),
                                         local_iterations=case.get("gmres", [40, 2])[0], resets=case.get("gmres", [40, 2])[1]))
     if not ck.require(isinstance(x, T.TT) and not x.is_ttm and [int(n) for n in x.N] == list(N), "shape",
                       "solution kind/shape wrong: %s" % (getattr(x, "N", type(x)),)):
